@@ -20,7 +20,7 @@ func TestVerifC43Grid(t *testing.T) {
 	gaps := []int64{1000, 1499, 1500, 1501, 1999, 2000, 2001, 2499, 2500, 2501, 3000}
 	phases := []int64{0, 1, 100, 250, 499}
 	k := r.N(2, 3)
-	defer r.Finish(fmt.Sprintf("enumerated timing grid on virtual time, judged by the C43 observer of leg 'group'. (A) one member, session 2 s, cleanup 500 ms: first join at phase %v ms after a cleanup tick, then %d heartbeat gaps each drawn from %v ms (all %d^%d x %d combinations): gaps of exactly the session timeout, +-1 ms, and +-1 ms around the following cleanup ticks. (B) members A,B stable, C joins (rebalance timeout 2 s, cleanup 500 ms) at phase p; A re-joins after d in {never,0,500,1500} ms and then heartbeats every h in {400,500,1000} ms with session 1.5 s or 3 s while B (session 6 s) stays silent: all combinations. Lower/upper bounds as in leg 'group', exact because probes sit on the cleanup ticks. non-trivial = case with a legitimate removal and a probe where a member outlived join+session thanks to heartbeats", phases, k, gaps, len(gaps), k, len(phases)),
+	defer r.Finish(fmt.Sprintf("enumerated timing grid on virtual time, judged by the C43 observer of leg 'group'. (A) one member, session 2 s, cleanup 500 ms: first join at phase %v ms after a cleanup tick, then %d heartbeat gaps each drawn from %v ms (all %d^%d x %d combinations): gaps of exactly the session timeout, +-1 ms, and +-1 ms around the following cleanup ticks. (B) members A,B stable, C joins (rebalance timeout 2 s, cleanup 500 ms) at phase p; A re-joins after d in {never,0,500,1500} ms and then heartbeats every h in {400,500,1000} ms with session 1.5 s or 3 s while B (session 6 s) stays silent: all combinations. (C) the session timeout changes: one member joins with s0 in {2,4} s and re-joins 700 ms later under the same member id announcing s1 in {1,2,3,4,6} s, then two heartbeat gaps each drawn from +-1 ms around both timeouts and 501 ms inside the interval between them, then silence, for 3 phases. (D)/(E) the same change arriving while a rebalance is being prepared (A,B stable, C joins, A re-joins announcing the new timeout, B lags) or completing (B left, A re-joined, re-joins again), A then heartbeating every {1,2,2.5,4} s with timeouts 1.5/3/4.5 s. A member's session timeout is the one announced by its latest accepted JoinGroup. Lower/upper bounds as in leg 'group', exact because probes sit on the cleanup ticks. non-trivial = case with a legitimate removal and a probe where a member outlived join+session thanks to heartbeats", phases, k, gaps, len(gaps), k, len(phases)),
 		"heartbeats answered ILLEGAL_GENERATION/UNKNOWN_MEMBER_ID do not count as heartbeating for the lower bound but do count as contact for the upper bound (lenient both ways)")
 	type gcase struct {
 		name string
@@ -87,6 +87,79 @@ func TestVerifC43Grid(t *testing.T) {
 			}
 		}
 	}
+	// (C) the member's session timeout changes: one member, cleanup 500 ms, joins with s0, re-joins 700 ms later under the
+	// same member id announcing s1 != s0, then two heartbeat gaps each drawn from +-1 ms around both timeouts and 501 ms
+	// inside the interval between them, then silence
+	for _, s0 := range []int64{2000, 4000} {
+		for _, s1 := range []int64{1000, 2000, 3000, 4000, 6000} {
+			if s1 == s0 {
+				continue
+			}
+			mn, mx := s0, s1
+			if mn > mx {
+				mn, mx = mx, mn
+			}
+			cg := []int64{mn - 1, mn + 1, mn + 501, mx - 501, mx - 1, mx + 1}
+			for _, ph := range []int64{0, 250, 499} {
+				for _, g1 := range cg {
+					for _, g2 := range cg {
+						cfg := gConfig{Topics: map[string]int{"ta": 1}, Universe: []string{"ta"}, M: 1, SessionMs: []int64{s0}, RebalMs: []int64{3000}, CleanupMs: 500}
+						var ops []gOp
+						if ph > 0 {
+							ops = append(ops, gOp{K: "advance", DtMs: ph})
+						}
+						ops = append(ops, gOp{K: "join", Slot: 0, Sub: []string{"ta"}}, gOp{K: "sync", Slot: 0}, gOp{K: "advance", DtMs: 700},
+							gOp{K: "join", Slot: 0, SessMs: s1},
+							gOp{K: "advance", DtMs: g1}, gOp{K: "hb", Slot: 0}, gOp{K: "advance", DtMs: g2}, gOp{K: "hb", Slot: 0},
+							gOp{K: "advance", DtMs: mx + 1100})
+						cases = append(cases, gcase{fmt.Sprintf("C/phase%d/session%d->%d/+%d/+%d", ph, s0, s1, g1, g2), cfg, ops})
+					}
+				}
+			}
+		}
+	}
+	// (D) the change arrives while a rebalance is being prepared (A,B stable, C joins, A re-joins announcing s1, B lags) and
+	// (E) while one is completing (A,B stable, B leaves, A re-joins: completing; A re-joins again announcing s1); A then
+	// heartbeats every h ms, with h below, between and above the two timeouts
+	for _, ph := range []int64{0, 250, 499} {
+		for _, sa := range []int64{1500, 3000} {
+			for _, s1 := range []int64{1500, 3000, 4500} {
+				if s1 == sa {
+					continue
+				}
+				for _, h := range []int64{1000, 2000, 2500, 4000} {
+					for _, d := range []int64{0, 500} {
+						cfg := gConfig{Topics: map[string]int{"ta": 3}, Universe: []string{"ta"}, M: 3, SessionMs: []int64{sa, 6000, 6000}, RebalMs: []int64{2000, 2000, 2000}, CleanupMs: 500}
+						sub := []string{"ta"}
+						ops := []gOp{{K: "join", Slot: 0, Sub: sub}, {K: "join", Slot: 1, Sub: sub}, {K: "settle"}}
+						if ph > 0 {
+							ops = append(ops, gOp{K: "advance", DtMs: ph})
+						}
+						ops = append(ops, gOp{K: "join", Slot: 2, Sub: sub})
+						if d > 0 {
+							ops = append(ops, gOp{K: "advance", DtMs: d})
+						}
+						ops = append(ops, gOp{K: "join", Slot: 0, SessMs: s1})
+						for elapsed := int64(0); elapsed < 9000; elapsed += h {
+							ops = append(ops, gOp{K: "advance", DtMs: h}, gOp{K: "hb", Slot: 0})
+						}
+						cases = append(cases, gcase{fmt.Sprintf("D/phase%d/session%d->%d/rejoin%d/every%d", ph, sa, s1, d, h), cfg, ops})
+					}
+					cfg := gConfig{Topics: map[string]int{"ta": 3}, Universe: []string{"ta"}, M: 2, SessionMs: []int64{sa, 6000}, RebalMs: []int64{2000, 2000}, CleanupMs: 500}
+					sub := []string{"ta"}
+					ops := []gOp{{K: "join", Slot: 0, Sub: sub}, {K: "join", Slot: 1, Sub: sub}, {K: "settle"}}
+					if ph > 0 {
+						ops = append(ops, gOp{K: "advance", DtMs: ph})
+					}
+					ops = append(ops, gOp{K: "leave", Slot: 1}, gOp{K: "join", Slot: 0}, gOp{K: "join", Slot: 0, SessMs: s1})
+					for elapsed := int64(0); elapsed < 9000; elapsed += h {
+						ops = append(ops, gOp{K: "advance", DtMs: h}, gOp{K: "hb", Slot: 0})
+					}
+					cases = append(cases, gcase{fmt.Sprintf("E/phase%d/session%d->%d/every%d", ph, sa, s1, h), cfg, ops})
+				}
+			}
+		}
+	}
 	for lo := 0; lo < len(cases); lo += 1000 {
 		hi := lo + 1000
 		if hi > len(cases) {
@@ -118,4 +191,7 @@ func TestVerifC43Grid(t *testing.T) {
 	r.Floor("removed_after_session_lapse", 200)
 	r.Floor("removed_as_rebalance_laggard", 20)
 	r.Floor("probes_where_a_member_lived_on_heartbeats_only", 200)
+	r.Floor("heartbeats_accepted_after_a_gap_longer_than_the_previous_session", 100)
+	r.Floor("removed_after_a_shortened_session_before_the_previous_one_lapsed", 100)
+	r.Floor("session_change_phases", 6)
 }
